@@ -649,7 +649,7 @@ pub fn record_trace(args: &[String]) -> i32 {
         let tst: i16 = if ci % 2 == 0 { 0 } else { -330 };
         let mut d = Dev::new(cap, tst);
         out.put(&json!({"ev": "reset", "cap": cap, "tst": tst}));
-        for _ in 0..n {
+        for it in 0..n {
             let regs = ["OPER", "QUES"];
             let r = *rng.pick(&regs);
             // device-side condition change
@@ -675,6 +675,17 @@ pub fn record_trace(args: &[String]) -> i32 {
                 if stop {
                     break;
                 }
+            }
+            // an unbounded queue filled beyond 255 unread items, then counted, read and drained (C13: COUNt? is not an 8-bit number)
+            if cap == 0 && mix == "c13" && n >= 600 && (40..310).contains(&it) {
+                units = match it {
+                    40..=299 => vec![mk("fail", "", 0, "", codes[(it % 7) as usize], (it % 3) as i64)],
+                    300 | 303 | 306 => vec![mk("countq", "", 0, "", 0, 0)],
+                    301 | 302 | 304 => vec![mk("errq", "", 0, "", 0, 0)],
+                    305 => vec![mk("esrq", "", 0, "", 0, 0), mk("countq", "", 0, "", 0, 0)],
+                    307 => vec![mk("allq", "", 0, "", 0, 0)],
+                    _ => vec![mk("countq", "", 0, "", 0, 0)],
+                };
             }
             let mav = rng.chance(1, 2);
             let style = rng.next();
